@@ -595,10 +595,10 @@ example :
       = [[.err 0 .null, .err 1 .null, .err 2 .null, .res 3 (.int 1) 0]] ∧
     wireLen 2 2 (fun _ (_ : Nat) => 76) 99 94
       [.err 0 .null, .err 1 .null, .err 2 .null, .res 3 (.int 1) 0] = 381 ∧
-    replies 10 2 (fun _ (_ : Nat) => 40) [.req (.int 1), .req (.int 2), .req (.int 3)]
+    replies 10 2 (fun _ (_ : Nat) => 41) [.req (.int 1), .req (.int 2), .req (.int 3)]
         [(0, 0), (1, 0), (2, 0)]
       = [[.big 0 (.int 1), .big 1 (.int 2), .big 2 (.int 3)]] ∧
-    wireLen 2 2 (fun _ (_ : Nat) => 40) 99 94
+    wireLen 2 2 (fun _ (_ : Nat) => 41) 99 94
       [.big 0 (.int 1), .big 1 (.int 2), .big 2 (.int 3)] = 288 := by decide
 
 /-- non-vacuity of `batch_within_limit`: two 10-byte results under limit 24 are both kept and
@@ -748,6 +748,21 @@ open Aiorpcx.Facts.C02 in
 theorem facts_size_accounting :
     ∃ inc, sizeIncrement = some inc ∧ joinSepLen ≤ inc ∧ bracketLen ≤ inc := by
   exact ⟨_, rfl, by decide, by decide⟩
+
+open Aiorpcx.Facts.C02 in
+/-- what the running size of the code under test does **not** contain is what the model's does
+    not contain: the error entry of an invalid member is not accounted (`[invalid, request]`
+    with a limit of exactly response + increment keeps the result, as `replies` does), and the
+    length of a replaced response stays in the running size (a response that would fit on its
+    own is replaced after an overflowing one, as in `replies`). -/
+theorem facts_batch_accounting :
+    invalidMembersAccounted = some (!decide (
+      replies 12 2 (fun _ (_ : Nat) => 10) [.invalid .null, .req (.int 1)] [(1, 0)]
+        = [[.err 0 .null, .res 1 (.int 1) 0]])) ∧
+    overflowSticky = some (decide (
+      replies 17 2 (fun _ (r : Nat) => r) [.req (.int 1), .req (.int 2)] [(0, 100), (1, 10)]
+        = [[.big 0 (.int 1), .big 1 (.int 2)]])) := by
+  decide
 
 open Aiorpcx.Facts.C02 in
 /-- `_send_result` at the boundary behaves as `sendResultSingle` (`oversize_single`):
